@@ -26,8 +26,19 @@ pub fn exact<E: Elem>(ids: &[u32]) -> Result<(), String> {
     ledger::check_exact(&live, z)
 }
 
+static MAXN: std::sync::atomic::AtomicUsize = std::sync::atomic::AtomicUsize::new(usize::MAX);
+/// reduced-bound runs (memory-monitor substrates): lengths above --maxn are skipped
+pub fn maxn() -> usize {
+    MAXN.load(std::sync::atomic::Ordering::Relaxed)
+}
+
 fn main() {
     let mut ctx = Ctx::from_args();
+    if ctx.only.is_none() {
+        if let Some(m) = ctx.extra.get("maxn").and_then(|s| s.parse::<usize>().ok()) {
+            MAXN.store(m, std::sync::atomic::Ordering::Relaxed);
+        }
+    }
     match ctx.mode.as_str() {
         "C09" => c09::run(&mut ctx),
         m => {
